@@ -262,16 +262,22 @@ def modeSense10 (data : Bytes) : Except PyErr PV := do
 
 /-! ### READ ELEMENT STATUS -/
 
-/-- one iteration of the inner loop -/
-def elementDescriptor (d : Bytes) (pvol avol ety : Nat) : Except PyErr PDict := do
-  let rr ← decodeInto d Gen.ReadElementStatus_element_status_descriptor_bits []
-  let dd := d.drop 12
+/-- the optional volume tags of an element descriptor (`dd` = the bytes after the 12 fixed ones) -/
+def elementTags (rr : PDict) (dd : Bytes) (pvol avol : Nat) : PDict :=
   let (rr, dd) := if pvol ≠ 0 then (rr.set "primary_volume_tag" (.bytes (dd.take 36)), dd.drop 36) else (rr, dd)
-  let rr := if avol ≠ 0 then rr.set "alternate_volume_tag" (.bytes (dd.take 36)) else rr
+  if avol ≠ 0 then rr.set "alternate_volume_tag" (.bytes (dd.take 36)) else rr
+
+/-- the fields that depend on the element type code of the page -/
+def elementTypeFields (d : Bytes) (ety : Nat) (rr : PDict) : Except PyErr PDict := do
   let rr ← if ety = 4 then decodeInto d Gen.ReadElementStatus_data_transfer_descriptor_bits rr else pure rr
   let rr ← if ety = 2 then decodeInto d Gen.ReadElementStatus_storage_descriptor_bits rr else pure rr
   let rr ← if ety = 3 then decodeInto d Gen.ReadElementStatus_import_export_descriptor_bits rr else pure rr
   pure rr
+
+/-- one iteration of the inner loop -/
+def elementDescriptor (d : Bytes) (pvol avol ety : Nat) : Except PyErr PDict := do
+  let rr ← decodeInto d Gen.ReadElementStatus_element_status_descriptor_bits []
+  elementTypeFields d ety (elementTags rr (d.drop 12) pvol avol)
 
 /-- the inner loop `while len(_d) and _edl: …; _d = _d[_edl:]` -/
 def elementDescriptors (d : Bytes) (edl pvol avol ety : Nat) : Except PyErr (List PV) :=
